@@ -193,6 +193,13 @@ func (p *Pool[K, V]) Put(key K, val V) {
 		}
 	}
 
+	// the capacity eviction above may have evicted the last entry of this same
+	// key and dropped its (now empty) list from the map: make sure the list we
+	// are about to append to is the one reachable through the map.
+	if p.entries[key] != local {
+		p.entries[key] = local
+	}
+
 	ent := &entry[K, V]{key: key, val: val}
 	local.appendEntry(ent, (*entry[K, V]).localList)
 	p.order.appendEntry(ent, (*entry[K, V]).globalList)
